@@ -48,6 +48,7 @@ type Mirror struct {
 	ReadsChecked                     int
 	Ambiguous                        int
 	FullReadEvery                    int // 1 = after every step
+	FaultActive                      bool // a fault is being injected: unclassified errors are expected
 }
 
 func NewMirror(e *Env, name string) *Mirror {
@@ -161,7 +162,7 @@ func (m *Mirror) Step(op Op) Outcome {
 				m.find("C38", fmt.Sprintf("C38/controller-panics:%s:%s", op.Kind, pe.Site), map[string]any{"panic": pe.Value, "site": pe.Site})
 			}
 		}
-		if out.Class == COther {
+		if out.Class == COther && !m.FaultActive {
 			m.find("C38", fmt.Sprintf("C38/unclassified-error:%s", op.Kind), map[string]any{"error": out.Err.Error()})
 		}
 		if op.Kind == "postings" && !op.DryRun && op.IK == "" && (out.Class == CInsufficient) {
